@@ -72,12 +72,28 @@ Ref == /\ Is("ref")
 \* Codec!Encode(L, m): bytes = Layout(p, m); the checksum service saw exactly the prefix
 CalcOK == \A k \in 1..Len(Ev.calcs) :
             \E i \in 1..Len(Segs) : Segs[i].k = "ck" /\ Segs[i].off = Ev.calcs[k][1]
+\* WireMachine view of one Encode (languages whose byte buffer is ours log every primitive):
+\*   <<"append", pos, bytes>>  writes at the end of the buffer only (pos = bytes written so far)
+\*   <<"set", pos, bytes>>     overwrites only a length-of field's placeholder, in its full width, inside
+\*                             what is already written
+\* and the primitives account for exactly the bytes returned
+PrimsOK ==
+  LET r == FoldLeft(LAMBDA acc, p :
+             IF ~acc.ok THEN acc
+             ELSE IF p[1] = "append" THEN [ok |-> p[2] = acc.n, n |-> acc.n + Len(p[3])]
+             ELSE [ok |-> /\ p[2] + Len(p[3]) <= acc.n
+                          /\ \E i \in 1..Len(Segs) : Segs[i].k = "len" /\ Segs[i].off = p[2] /\ Segs[i].len = Len(p[3]),
+                   n |-> acc.n],
+             [ok |-> TRUE, n |-> 0], Ev.prims) IN
+  Ev.prims = <<>> \/ (r.ok /\ r.n = Len(Ev.bytes))
+
 Enc == /\ Is("enc")
        /\ LET fails ==
               IF ~Ev.ok THEN <<[kind |-> Ev.cls, field |-> "-", part |-> "-"]>>
               ELSE (IF Ev.bytes = lay THEN <<>>
                     ELSE LET d == FirstDiff(Ev.bytes) IN <<[kind |-> "bytes-differ", field |-> d.name, part |-> d.part]>>)
                    \o (IF CalcOK THEN <<>> ELSE <<[kind |-> "checksum-coverage", field |-> "-", part |-> "-"]>>)
+                   \o (IF PrimsOK THEN <<>> ELSE <<[kind |-> "buffer-discipline", field |-> "-", part |-> "-"]>>)
           IN Report(fails)
        /\ encb' = [encb EXCEPT ![Ev.lang] = IF Ev.ok THEN Ev.bytes ELSE <<-1>>]
        /\ l' = l + 1 /\ UNCHANGED <<prog, cur, lay, nrm, segs>>
